@@ -59,7 +59,7 @@ def run(tier):
         ck.violation({"where": "model", "config": "JlsApiGen_mc", "invariant": r.violated})
     P = []
     types = progs.ALL_TYPES
-    n = 900 if thorough else 220
+    n = 20000 if thorough else 220
     for i in range(n):
         p, model = progs.gen_writer_program(rng, i + 1, kind="c09", types=[types[i % len(types)]], nsig=1, gaps=True, overlaps=True,
                                             omit=False, annos=False, utc=False, userdata=False, late_defs=False,
@@ -79,6 +79,21 @@ def run(tier):
         q["ops"].append({"op": "sumvals", "file": "a"})
         q["model"] = progs.model_json(model)
         P.append(q)
+    # a gap that covers exactly one whole level-1 entry, the first of a level-2 group (and one in the middle of a group)
+    for dt in ("f32", "f64"):
+        nspd, nsdf, neps, nsum = progs.normalise(dt, 10, 10, 10, 10)
+        g2 = nsdf * nsum
+        ops = [{"op": "wopen"}, {"op": "source", "id": 1, "name": ["lit", "s"]},
+               {"op": "signal", "id": 1, "src": 1, "dt": dt, "rate": 1000, "spd": 10, "sdf": 10, "eps": 10, "sumdf": 10,
+                "name": ["lit", "g"], "units": ["lit", "u"]},
+               {"op": "fsr", "sig": 1, "id": 0, "n": 2 * g2, "gen": ["ramp", 13]},
+               {"op": "fsr", "sig": 1, "id": 2 * g2 + nsdf, "n": 3 * g2 + 5 * nsdf - nsdf, "gen": ["ramp", 13]},
+               {"op": "fsr", "sig": 1, "id": 5 * g2 + 6 * nsdf, "n": 30 * g2, "gen": ["ramp", 13]},
+               {"op": "wclose"}, {"op": "ropen"}, {"op": "len", "sig": 1}, {"op": "rd", "sig": 1, "start": 2 * g2 - 4, "n": nsdf + 8},
+               {"op": "rclose"}, {"op": "sumvals", "file": "a"}]
+        L = 5 * g2 + 6 * nsdf + 30 * g2
+        P.append({"x": len(P) + 1, "kind": "c09-sum", "feat": ["gap", "gap-" + dt, "type-" + dt, "aligned-gap"], "ops": ops,
+                  "model": {"sigs": {"1": {"dt": dt, "bits": progs.WIDTH[dt], "norm": [nspd, nsdf, neps, nsum], "length": L}}}})
     # overlaps whose length is not a whole number of bytes, before / at / after block boundaries, for every narrow type
     for dt in ["u1", "u4", "i4"] + (["u8", "u16", "f32"] if thorough else ["u8"]):
         per = max(1, 8 // progs.WIDTH[dt])
